@@ -786,9 +786,11 @@ def run(ctx):
     import threading
     logging.disable(logging.CRITICAL)
     threading.excepthook = lambda args: None
+    import time
     rng = ctx.rng
     quick = not ctx.thorough
     stats = {}
+    t0 = time.time()
 
     def note_stats(case, o):
         key = (case["graph"]["shape"], "lazy" if case["lazy"] else "eager")
@@ -801,7 +803,7 @@ def run(ctx):
         st["bound"] = max(st["bound"], o["B"])
 
     # 1. chains under deterministic priority schedules: real pipeline vs the Lean chain model (counts and wiring)
-    cases = chain_model_cases(rng, ctx.pick(500, 4000))
+    cases = chain_model_cases(rng, ctx.pick(400, 4000))
     res = {}
     for i, c in enumerate(cases):
         c["i"] = i
@@ -819,9 +821,11 @@ def run(ctx):
                         "non-trivial = paused, at rest, resumed to the end",
                    branch=branch_rest)
 
+    ctx.note(f"phase chain/model: {time.time() - t0:.1f}s")
+    t0 = time.time()
     # 2. all shapes, random / PCT / adversarial schedules, runs of n and 2n chunks (oracle)
     cases = every_k_cases()
-    cases += [random_case(rng, quick) for _ in range(ctx.pick(1000, 9000))]
+    cases += [random_case(rng, quick) for _ in range(ctx.pick(700, 9000))]
     res2 = {}
     for i, c in enumerate(cases):
         c["i"] = i
@@ -834,9 +838,11 @@ def run(ctx):
                      nontrivial=lambda c, out: all(o["e_quiet"] is not None and o["got"] == o["n"] for o in res2[c["i"]]),
                      rule=RULE_REST, branch=branch_rest)
 
+    ctx.note(f"phase pipeline/rest: {time.time() - t0:.1f}s")
+    t0 = time.time()
     # 3. stand-alone mailbox: the gate condition at every fetch of a lazy mailbox (also diffed with the mailbox model)
     from props import c05
-    gcases = gate_cases(rng, ctx.pick(2500, 25000))
+    gcases = gate_cases(rng, ctx.pick(2000, 25000))
     gres = {}
     for i, c in enumerate(gcases):
         c["i"] = i
@@ -853,6 +859,7 @@ def run(ctx):
                         "non-trivial = at least two messages and two subscribers",
                    branch=lambda c, out: f"drive={c['drive']}/cap={c['cap']}")
 
+    ctx.note(f"phase mailbox/gate: {time.time() - t0:.1f}s")
     ctx.note("bound formula: eager B = 2 * sum(max_messages of the mailboxes on the cheapest path source -> target); lazy B = 1 "
              "(emitted - pulled <= B at every step; hence at most B further source chunks after the consumer stops)")
     for (shape, mode), st in sorted(stats.items()):
